@@ -74,6 +74,8 @@ type c15Scenario struct {
 	mintPrev string
 	// the mint address is one whose key the harness holds, and it spends in the mint and mint-burn blocks
 	mintKey bool
+	// the directory-block request of the mint block and of the mint-burn block fails once: both blocks are applied twice
+	retryMint bool
 }
 
 func c15Scenarios(thorough bool) []c15Scenario {
@@ -130,6 +132,9 @@ func c15Scenarios(thorough bool) []c15Scenario {
 			e.V204Burn = e.V204 + 20
 			e.PIP10 = e.V204Burn + 10
 			out = append(out, c15Scenario{name: fmt.Sprintf("late/v202-at-432+%d/holdings-%s", off, hold), class: "late", era: e, tip: e.PIP10 + 5, burnNew: hold, mintPrev: hold, burnOld: "some"})
+			if off == 1 || off == 77 {
+				out = append(out, c15Scenario{name: fmt.Sprintf("late/v202-at-432+%d/holdings-%s/mint-blocks-retried", off, hold), class: "late-retried", era: e, tip: e.PIP10 + 5, burnNew: hold, mintPrev: hold, burnOld: "some", retryMint: true})
+			}
 			if off == 0 || off == 77 {
 				out = append(out, c15Scenario{name: fmt.Sprintf("late/v202-at-432+%d/holdings-%s/mint-address-spends", off, hold), class: "late-mintspends", era: e, tip: e.PIP10 + 5, burnNew: hold, mintPrev: hold, burnOld: "some", mintKey: true})
 			}
@@ -141,7 +146,7 @@ func c15Scenarios(thorough bool) []c15Scenario {
 func runC15(c *core.Ctx, r *core.Result) {
 	if c.Shard == 0 && c.Only == "" {
 		r.Eval()
-		if diffs := c15Frozen(); len(diffs) > 0 {
+		if diffs := c15Frozen(false); len(diffs) > 0 {
 			r.Violate(core.Violation{Key: "fixed-lists", Signature: "C15:fixed-list-differs", Desc: "the developer list / mint table / special addresses of the code differ from the fixed lists the property refers to", Detail: diffs})
 		}
 	}
@@ -307,7 +312,26 @@ func c15One(c *core.Ctx, r *core.Result, sc c15Scenario) {
 			per[SyncedOf(d.DBFile())] = c15Read(d.DBFile(), special)
 		}
 	}})
-	out := run.Sync()
+	var out drive.Outcome
+	if sc.retryMint {
+		failed := map[uint32]bool{}
+		out = run.D.SyncTo(b.Chain.Tip(), drive.SyncOpts{OnRequest: func(rq fake.Req) fake.FaultKind {
+			if rq.Kind == "dblock" && (rq.Height == era.V204 || rq.Height == era.V204Burn) && !failed[rq.Height] {
+				failed[rq.Height] = true
+				return fake.FaultTransport
+			}
+			return fake.NoFault
+		}, FaultPending: func() bool { return len(failed) < 2 }})
+		if out.Reached && len(failed) != 2 {
+			panic("harness: C15 " + sc.name + ": the injected failures did not fire")
+		}
+	} else {
+		out = run.Sync()
+	}
+	// the fixed lists must still be what they were: a table rewritten in memory changes every later use of it
+	if diffs := c15Frozen(sc.mintKey); len(diffs) > 0 {
+		r.Violate(core.Violation{Key: sc.name, Signature: "C15:fixed-list-differs-after-a-run", Desc: "after this chain the in-memory developer list / mint table differ from the fixed lists", Detail: diffs})
+	}
 	if !out.Reached {
 		r.Count("inconclusive-"+outcomeClass(out), 1)
 		r.Outcome(sc.class + ":not-synced:" + errClass(out.LastErr+out.DiedMsg))
